@@ -114,9 +114,9 @@ fn has_nan(t: &Trace) -> bool {
     t.log.iter().any(|(_, _, a)| a.iter().any(isnan)) || t.regs.iter().any(|r| r.as_ref().map(isnan).unwrap_or(false))
 }
 
-fn compare(a: &Trace, b: &Trace, check_regs: &[i32]) -> Option<String> {
-    if a.time != b.time { return Some(format!("time {} vs {}", a.time, b.time)); }
-    if a.real_time != b.real_time { return Some(format!("real_time {} vs {}", a.real_time, b.real_time)); }
+fn compare(a: &Trace, b: &Trace, check_regs: &[i32], compare_time: bool) -> Option<String> {
+    if compare_time && a.time != b.time { return Some(format!("time {} vs {}", a.time, b.time)); }
+    if compare_time && a.real_time != b.real_time { return Some(format!("real_time {} vs {}", a.real_time, b.real_time)); }
     if a.log.len() != b.log.len() { return Some(format!("log length {} vs {}", a.log.len(), b.log.len())); }
     for (i, (x, y)) in a.log.iter().zip(&b.log).enumerate() {
         let same_args = x.2.len() == y.2.len() && x.2.iter().zip(&y.2).all(|(p, q)| same_value(&Some(p.clone()), &Some(q.clone())));
@@ -136,15 +136,16 @@ fn differential(truth: &mut Truth, old: &[truth::Sp<ast::Stmt>], new: &[truth::S
     let check_regs = ints(j, "check_regs");
     let mut runs = vec![];
     let want_trace = b(j, "want_trace", false);
+    let compare_time = b(j, "compare_time", false);
     for (si, st) in states.iter().enumerate() {
         for &d in &diffs {
             let a = run_vm(old, truth, st, d, max_iter, &check_regs);
             let a = match a { Ok(a) => a, Err(p) => { runs.push(json!({"s": si, "d": d, "status": "src_panic", "msg": p.msg})); continue; } };
             if has_nan(&a) { runs.push(json!({"s": si, "d": d, "status": "src_nan"})); continue; }
-            let bb = run_vm(new, truth, st, d, max_iter, &check_regs);
+            let bb = run_vm(new, truth, st, d, max_iter.saturating_mul(8), &check_regs);  // the transformed form executes more (label/jump) statements
             match bb {
                 Err(p) => runs.push(json!({"s": si, "d": d, "status": "new_panic", "msg": p.msg, "site": p.site})),
-                Ok(bt) => match compare(&a, &bt, &check_regs) {
+                Ok(bt) => match compare(&a, &bt, &check_regs, compare_time) {
                     None => {
                         let mut r = json!({"s": si, "d": d, "status": "eq", "calls": a.log.len(), "time": a.time});
                         if want_trace { r["trace"] = log_json(&a); }
@@ -171,7 +172,8 @@ macro_rules! stage {
 }
 
 /// Front half shared by the VM ops: parse a block and run the passes up to (not including) desugaring.
-fn front(truth: &mut Truth, key: LanguageKey, text: &str, presimplify: bool) -> Result<ast::Block, (String, truth::ErrorReported)> {
+fn front(truth: &mut Truth, lang: &Lang, text: &str, presimplify: bool) -> Result<ast::Block, (String, truth::ErrorReported)> {
+    let key = lang.key;
     let mut block = truth.parse::<ast::Block>("<input>", text.as_bytes()).map_err(|e| ("parse".to_string(), e))?.value;
     let ctx = truth.ctx();
     passes::resolution::assign_languages(&mut block, key, ctx).map_err(|e| ("assign_languages".to_string(), e))?;
@@ -181,6 +183,8 @@ fn front(truth: &mut Truth, key: LanguageKey, text: &str, presimplify: bool) -> 
         passes::evaluate_const_vars::run(ctx).map_err(|e| ("constvars".to_string(), e))?;
         passes::const_simplify::run(&mut block, ctx).map_err(|e| ("simplify".to_string(), e))?;
     }
+    // as the real formats do (e.g. ecl_06.rs): reject mismatched switch lengths, warn about labels on blocks
+    passes::validate_difficulty::run(&block, ctx, &*lang.hooks).map_err(|e| ("validate_difficulty".to_string(), e))?;
     passes::resolution::aliases_to_raw(&mut block, ctx).map_err(|e| ("aliases_to_raw".to_string(), e))?;
     passes::resolution::compute_diff_label_masks(&mut block, ctx).map_err(|e| ("diff_masks".to_string(), e))?;
     Ok(block)
@@ -235,7 +239,7 @@ pub fn vm_lower(j: &Value) -> Result<Value, String> {
     let _ = truth::verif_hooks::take_reg_events();
     stage!(truth, "mapfile", setup_mapfiles(&mut truth, &lang, j));
     let text = s(j, "body").ok_or("no body")?;
-    let mut block = front_or_return!(truth, lang.key, text, b(j, "presimplify", false));
+    let mut block = front_or_return!(truth, &lang, text, b(j, "presimplify", false));
     stage!(truth, "desugar", passes::desugar_blocks::run(&mut block, truth.ctx(), lang.key));
     let front_diag = truth.get_captured_diagnostics().unwrap_or_default();
     let old = block.0;
@@ -252,6 +256,9 @@ pub fn vm_lower(j: &Value) -> Result<Value, String> {
     let new_text = truth::fmt::stringify(&new_block);
     let diag = truth.get_captured_diagnostics().unwrap_or_default();
     let runs = differential(&mut truth, &old, &new_block.0, j);
+    if b(j, "want_debug", false) {
+        return Ok(json!({"stage": "done", "ok": true, "new_debug": format!("{:#?}", new_block), "runs": runs}));
+    }
     Ok(json!({"stage": "done", "ok": true, "diag": diag, "front_diag": front_diag, "new_text": new_text, "reg_events": evs, "instrs": instrs_js, "runs": runs}))
 }
 
@@ -262,7 +269,7 @@ pub fn vm_desugar(j: &Value) -> Result<Value, String> {
     let mut truth = scope.truth();
     stage!(truth, "mapfile", setup_mapfiles(&mut truth, &lang, j));
     let text = s(j, "body").ok_or("no body")?;
-    let before = front_or_return!(truth, lang.key, text, false);
+    let before = front_or_return!(truth, &lang, text, false);
     let mut after = before.clone();
     stage!(truth, "desugar", passes::desugar_blocks::run(&mut after, truth.ctx(), lang.key));
     let after_text = truth::fmt::stringify(&after);
@@ -279,7 +286,7 @@ pub fn vm_blocks(j: &Value) -> Result<Value, String> {
     let mut truth = scope.truth();
     stage!(truth, "mapfile", setup_mapfiles(&mut truth, &lang, j));
     let text = s(j, "body").ok_or("no body")?;
-    let mut block = front_or_return!(truth, lang.key, text, false);
+    let mut block = front_or_return!(truth, &lang, text, false);
     stage!(truth, "desugar", passes::desugar_blocks::run(&mut block, truth.ctx(), lang.key));
     let instrs = stage!(truth, "lower", lower_block(&mut truth, &*lang.hooks, &block.0));
     let compile_diag = truth.get_captured_diagnostics().unwrap_or_default();
